@@ -7,45 +7,50 @@ Theorem c28_once : forall s l n m, (count_obs (Handed n m) (snd (nrun s l)) <= 1
 Proof. exact handed_at_most_once. Qed.
 Print Assumptions c28_once.
 
-(* a node never writes a message to its original publisher nor to the peer it
-   accepted the message from (for every schedule and any topology changes) *)
-Theorem c28_no_echo : forall s l u v m,
+(* a node never writes a message, on any of its links, to its original
+   publisher nor to the peer it accepted the message from (for every schedule
+   and any topology changes, parallel links included) *)
+Theorem c28_no_echo : forall s l u v lid m,
   pubq s = [] ->
-  In (Sent u v m) (snd (nrun s l)) ->
+  In (Sent u v lid m) (snd (nrun s l)) ->
   v <> m_origin m /\
   (exists w, In (Accepted u w m) (snd (nrun s l))) /\
   (forall w, In (Accepted u w m) (snd (nrun s l)) -> v <> w).
 Proof. exact no_echo. Qed.
 Print Assumptions c28_no_echo.
 
-(* arbitrary graph (any link relation on any set of nodes), subscriptions
-   announced, any schedule of publishes, packet reads and publish executions:
-   when no packet is in flight and no publish is pending, every subscriber
-   connected to the publisher through subscribers has been handed the message
-   exactly once *)
-Theorem c28_all : forall (link : nat -> nat -> bool) s0,
-  announced link s0 ->
-  forall l m v,
-    fresh s0 -> forallb traffic l = true ->
-    quiescent (fst (nrun s0 l)) ->
+(* Arbitrary multigraph: sessions are (peer, link id) tuples as in the code, any
+   number of parallel links, any history before s0 (links established and torn
+   down, stale peerChannels entries of dead tuples, earlier messages flooded).
+   s0 is stabilised: nothing in flight, sessions up on both sides or neither,
+   subscriptions announced over the sessions that are up.  For a message m
+   published after that, under any schedule of publishes, packet reads and
+   publish executions: at quiescence every subscriber connected to the publisher
+   by a path of subscribers over links that are up was handed m exactly once *)
+Theorem c28_all : forall s0 m,
+  announced s0 ->
+  forall l v,
+    stable s0 -> unseen m s0 -> forallb traffic l = true ->
+    stable (fst (nrun s0 l)) ->
     In (Publish m) l ->
-    reach link s0 (m_ch m) (m_origin m) v ->
+    reach s0 (m_ch m) (m_origin m) v ->
     chan_b v (m_ch m) (chans s0) = true ->
     count_obs (Handed v m) (snd (nrun s0 l)) = 1%nat.
 Proof. exact all_reached. Qed.
 Print Assumptions c28_all.
 
-(* non-vacuity: a ring of three subscribers, node 0 publishes; the canonical
-   schedule reaches quiescence and everybody was handed the message once *)
+(* non-vacuity: nodes 0 and 1 joined by two parallel links, node 2 behind 1;
+   link 1 goes down on both sides (its peerChannels entries stay); a message
+   published afterwards still reaches everybody exactly once, over link 2 *)
 Example c28_nonvacuous :
-  let link := fun u v => negb (Nat.eqb u v) && Nat.ltb u 3 && Nat.ltb v 3 in
-  let subs := [(0, 5); (1, 5); (2, 5)]%nat in
-  let pcs := [(0, 1, 5); (0, 2, 5); (1, 0, 5); (1, 2, 5); (2, 0, 5); (2, 1, 5)]%nat in
-  let s0 := Net [] [] [] pcs subs in
+  let pcs := [PC 0 1 1 5; PC 1 0 1 5; PC 0 1 2 5; PC 1 0 2 5; PC 1 2 3 5; PC 2 1 3 5] in
+  let ups := [LK 0 1 1; LK 1 0 1; LK 0 1 2; LK 1 0 2; LK 1 2 3; LK 2 1 3] in
+  let s := fst (nrun (Net [] [] [] pcs [(0, 5); (1, 5); (2, 5)]%nat ups) [PeerGone 0 1 1; PeerGone 1 0 1]) in
   let m := Msg 0 5 0 in
-  let '(s1, o1) := nstep s0 (Publish m) in
+  let '(s1, o1) := nstep s (Publish m) in
   let '(s2, o2) := drain 100 s1 in
   flight s2 = [] /\ pubq s2 = [] /\
   map (fun k => count_obs (Handed k m) (o1 ++ o2)) [0; 1; 2]%nat = [1; 1; 1]%nat /\
-  count_obs (Sent 1 0 m) (o1 ++ o2) = 0%nat.
+  count_obs (Sent 0 1 1 m) (o1 ++ o2) = 0%nat /\ count_obs (Sent 0 1 2 m) (o1 ++ o2) = 1%nat /\
+  count_obs (Sent 1 0 2 m) (o1 ++ o2) = 0%nat.
 Proof. vm_compute. repeat split; reflexivity. Qed.
